@@ -25,7 +25,12 @@ CUSTOM3 = {  # three layers, low-Ksat / penetrability-50 middle layer
 }
 CUSTOMTEX = {"type": "custom", "texture": [[0.4, 40, 20, 2.5, 100], [2.6, 20, 40, 1.5, 100]]}
 
+SAND_OVER_CLAY = {"type": "custom", "layers": [[0.3, 0.06, 0.13, 0.36, 3000.0, 100], [3.7, 0.39, 0.54, 0.55, 35.0, 100]]}
+CLAY_OVER_SAND = {"type": "custom", "layers": [[0.4, 0.39, 0.54, 0.55, 35.0, 100], [3.6, 0.06, 0.13, 0.36, 3000.0, 100]]}
+
 SOILS = {
+    "sandoverclay": SAND_OVER_CLAY,
+    "clayoversand": CLAY_OVER_SAND,
     "Sand": {"type": "Sand"},
     "SandyLoam": {"type": "SandyLoam"},
     "Clay": {"type": "Clay"},
@@ -109,10 +114,10 @@ WINDOWS = {  # (start offset in days relative to first planting, n seasons, trai
 }
 
 WATER_MENUS = {
-    "soil": ["SandyLoam", "Sand", "Clay", "Paddy", "custom3", "ClayLoam"],
+    "soil": ["SandyLoam", "Sand", "Clay", "Paddy", "custom3", "ClayLoam", "sandoverclay", "clayoversand"],
     "dz": ["d12", "nonuni", "deep30", "few8"],
     "iwc": IWC_KINDS,
-    "irr": ["none", "smt", "smt100e70", "int3", "sched", "net80", "net50", "const8e70", "const40e40", "smt_cap60"],
+    "irr": ["none", "smt", "smt100e70", "int3", "sched", "net80", "net50", "net100", "const8e70", "const40e40", "smt_cap60"],
     "field": ["none", "bunds200", "bunds50w20", "bunds50w500", "mulch", "srinhb", "cn+20"],
     "fallow": ["none", "bunds50w20", "mulch"],
     "gw": ["none", "0.3", "0.8", "1.5", "rising_v", "falling_c"],
